@@ -156,6 +156,11 @@ EXTRA_PROGRAMS: Dict[str, Dict[str, Any]] = {
     "reserved-in-two-files": {"root.yaml": {"imports": ["lib.yaml"], "message_defs": {"_RESERVED_": {"id": [4300, "4302 - 4303", "4330 - 4331", 4340, "4350 to 4352", "4360 - 4360"]},
                                                                                   "MS": {"id": 4301, "fields": {"a": "int8"}}}},
                               "lib.yaml": {"message_defs": {"_RESERVED_": {"id": ["4310 to 4312", "4370 - 4372", 4380, "4390 to 4391", "4395 - 4396"]}, "LM": {"id": 4320, "fields": None}}}},
+    "repeated-import-other-dir": {"root.yaml": {"imports": ["sub/types.yaml", "a.yaml", "sub/types.yaml", "b.yaml"], "message_defs": {"MS": {"id": 4110, "fields": {"t": "TT", "x": "XA", "y": "YB"}}}},
+                                  "sub/types.yaml": {"struct_defs": {"TT": {"fields": {"v": "int32"}}}}, "a.yaml": {"imports": ["sub/types.yaml"], "struct_defs": {"XA": {"fields": {"t": "TT"}}}},
+                                  "b.yaml": {"struct_defs": {"YB": {"fields": {"w": "double"}}}}},
+    "ids-not-in-definition-order": {"root.yaml": {"message_defs": {"LATE": {"id": 4190, "fields": {"a": "int32", "b": "float"}}, "MID_MSG": {"id": 4150, "fields": {"l": "LATE", "n": "int16"}},
+                                                                   "EARLY": {"id": 4120, "fields": {"m": "MID_MSG", "ls": "LATE[2]"}}}}},
     "module-and-host-ids": {"root.yaml": {"host_ids": {"LAB_PC": 12, "RIG": 300}, "module_ids": {"PRODUCER": 10, "CONSUMER": 99, "EXTRA": 200},
                                           "message_defs": {"MS": {"id": 4102, "fields": None}}}},
     "all-native-types": {"root.yaml": {"message_defs": {"MS": {"id": 4103, "fields": {f"f{i}": t for i, t in enumerate(defx.NATIVE_NAMES)}}},
